@@ -17,21 +17,30 @@ Record arch : Type := mkArch {
   lbits : nat; obits : nat; (* L: RAM address bits, O: ROM address bits *)
   ops : list string;        (* opcode names, in the order the architecture numbers them *)
   wordsize : nat;           (* 0 = automatic *)
-  mode : exec_mode
+  mode : exec_mode;
+  shared : list string      (* Shared_constraints: the kind of every attached shared object, in order *)
 }.
 
+(* shared-object kinds an opcode can name, with the name used in Shared_constraints and the prefix of an operand *)
+Inductive shrk := SQueue | SStack | SUart | SKbd | SBarrier | SLfsr8 | SChannel.
+Definition shr_name (k : shrk) : string :=
+  match k with SQueue => "queue" | SStack => "stack" | SUart => "uart" | SKbd => "kbd" | SBarrier => "barrier"
+             | SLfsr8 => "lfsr8" | SChannel => "channel" end%string.
+Definition shr_short (k : shrk) : string :=
+  match k with SQueue => "q" | SStack => "st" | SUart => "u" | SKbd => "k" | SBarrier => "br" | SLfsr8 => "lfsr8" | SChannel => "ch" end%string.
+
 (* symbolic widths, exactly the sub-expressions the Go code writes *)
-Inductive atom := AOp | AR | ARsize | AInb | AOutb | AO | AL | AMaxOL.
+Inductive atom := AOp | AR | ARsize | AInb | AOutb | AO | AL | AMaxOL | AShr (k : shrk).
 Inductive wexpr :=
 | WC (n : nat) | WA (a : atom) | WPlus (x y : wexpr) | WMul (k : nat) (x : wexpr)
 | WMode (ha vn hy : wexpr).   (* value selected by arch.Modes[0] *)
 (* the recurring `locationBits` of the jump opcodes *)
 Definition WLoc : wexpr := WMode (WA AO) (WA AL) (WA AMaxOL).
 
-Inductive fkind := KReg | KNum | KIn | KOut.
+Inductive fkind := KReg | KNum | KIn | KOut | KShr (k : shrk).
 (* printers the Disassemblers apply to get_id(...): register/input/output names,
    strconv.Itoa (signed Go int) or strconv.FormatUint(uint64(..)) *)
-Inductive pkind := PReg | PNum | PNumU | PIn | POut.
+Inductive pkind := PReg | PNum | PNumU | PIn | POut | PShr (k : shrk).
 Record afield := mkAF { fk : fkind; fw : wexpr }.
 Record dfield := mkDF { dlo : wexpr; dhi : wexpr; dk : pkind }.
 Record layout := mkLayout {
@@ -45,12 +54,20 @@ Record layout := mkLayout {
 
 Definition opbits (a : arch) : nat := sel_bits (N.of_nat (List.length (ops a))).
 
+(* Shared_num / Shared_bits *)
+Definition shr_num (a : arch) (k : shrk) : N := N.of_nat (List.length (filter (String.eqb (shr_name k)) (shared a))).
+Fixpoint shr_bits_from (fuel bits : nat) (n : N) : nat :=
+  match fuel with O => 0 | S f => if (n <=? 2 ^ N.of_nat bits)%N then bits else shr_bits_from f (S bits) n end.
+Definition shr_bits (a : arch) (k : shrk) : nat :=
+  if (shr_num a k =? 0)%N then 0 else shr_bits_from 255 1 (shr_num a k).
+
 Definition aval (a : arch) (x : atom) : nat :=
   match x with
   | AOp => opbits a | AR => rbits a | ARsize => rsize a
   | AInb => sel_bits (nin a) | AOutb => sel_bits (nout a)
   | AO => obits a | AL => lbits a
   | AMaxOL => if Nat.ltb (lbits a) (obits a) then obits a else lbits a
+  | AShr k => shr_bits a k
   end.
 
 Fixpoint weval (a : arch) (e : wexpr) : nat :=
@@ -87,12 +104,27 @@ Definition parse_indexed (pre : ascii) (bound : N) (tok : string) : option N :=
   | EmptyString => None
   end.
 
+(* "q1" / "st0" / "lfsr81": the kind's prefix and a canonical decimal below the number of attached objects (Process_shared) *)
+Fixpoint strip_prefix (pre s : string) : option string :=
+  match pre with
+  | EmptyString => Some s
+  | String c p => match s with String d r => if Ascii.eqb c d then strip_prefix p r else None | EmptyString => None end
+  end.
+Definition parse_shr (pre : string) (bound : N) (tok : string) : option N :=
+  match strip_prefix pre tok with
+  | Some rest => match parse_canon rest with
+                 | Some k => if N.ltb k bound then Some k else None
+                 | None => None end
+  | None => None
+  end.
+
 Definition parse_operand (a : arch) (k : fkind) (tok : string) : option bstr :=
   match k with
   | KReg => option_map get_binary (parse_indexed "r"%char (2 ^ N.of_nat (rbits a)) tok)
   | KIn => option_map get_binary (parse_indexed "i"%char (nin a) tok)
   | KOut => option_map get_binary (parse_indexed "o"%char (nout a) tok)
   | KNum => parse_num tok
+  | KShr k => option_map get_binary (parse_shr (shr_short k) (shr_num a k) tok)
   end.
 
 Fixpoint asm_fields (a : arch) (fs : list afield) (ws : list string) : option bstr :=
@@ -158,6 +190,7 @@ Definition print_field (k : pkind) (v : N) : string :=
   | PReg => ("r" ++ print_goint v)%string | PIn => ("i" ++ print_goint v)%string | POut => ("o" ++ print_goint v)%string
   | PNum => print_goint v
   | PNumU => print_dec (v mod 2 ^ 64)
+  | PShr k => (shr_short k ++ print_goint v)%string
   end.
 
 Fixpoint disasm_fields (a : arch) (ds : list dfield) (instr : bstr) : option (list string) :=
@@ -186,10 +219,13 @@ End WithTable.
 
 (* ---------- symbolic consistency of one layout (decides agreement for every architecture) ---------- *)
 
-Definition all_atoms := [AOp; AR; ARsize; AInb; AOutb; AO; AL; AMaxOL].
+Definition all_atoms := [AOp; AR; ARsize; AInb; AOutb; AO; AL; AMaxOL; AShr SQueue; AShr SStack; AShr SUart; AShr SKbd; AShr SBarrier; AShr SLfsr8; AShr SChannel].
 Definition atom_eqb (x y : atom) : bool :=
   match x, y with
   | AOp, AOp | AR, AR | ARsize, ARsize | AInb, AInb | AOutb, AOutb | AO, AO | AL, AL | AMaxOL, AMaxOL => true
+  | AShr j, AShr k => match j, k with
+                      | SQueue, SQueue | SStack, SStack | SUart, SUart | SKbd, SKbd | SBarrier, SBarrier | SLfsr8, SLfsr8 | SChannel, SChannel => true
+                      | _, _ => false end
   | _, _ => false end.
 
 Fixpoint wconst (m : exec_mode) (e : wexpr) : nat :=
@@ -210,7 +246,10 @@ Definition wexpr_eqb (x y : wexpr) : bool :=
   wexpr_eqb_m Ha x y && wexpr_eqb_m Vn x y && wexpr_eqb_m Hy x y.
 
 Definition kind_agree (x : fkind) (y : pkind) : bool :=
-  match x, y with KReg, PReg | KNum, PNum | KNum, PNumU | KIn, PIn | KOut, POut => true | _, _ => false end.
+  match x, y with
+  | KReg, PReg | KNum, PNum | KNum, PNumU | KIn, PIn | KOut, POut => true
+  | KShr j, PShr k => atom_eqb (AShr j) (AShr k)
+  | _, _ => false end.
 
 (* dfields must be the consecutive partition induced by the afields, kinds matching *)
 Fixpoint fields_agree (off : wexpr) (fs : list afield) (ds : list dfield) : bool :=
